@@ -316,6 +316,16 @@ SetAttrScalar(h, n, name, tag, val) ==
 
 ER(h, n, ex) == [h |-> h, n |-> n, ex |-> ex]
 
+RECURSIVE IndexFold(_, _, _, _)
+\* kids: the key/value ids of the index mapping (read once, like the code's
+\* loop over attr_node.yaml_node.value); the inner mappings are edited in place
+IndexFold(h, kids, i, keyattr) ==
+    IF i > Len(kids) THEN h
+    ELSE LET kk == NewId(h)
+             kc == kk + 1
+             h1 == h \o <<Node("s", "str", keyattr, <<>>), h[kids[i]]>> IN
+         IndexFold([h1 EXCEPT ![kids[i + 1]].c = @ \o <<kk, kc>>], kids, i + 2, keyattr)
+
 ApplyEffect(h, n, e) ==
     CASE e[1] = "none" -> ER(h, n, "")
       [] e[1] = "raise_seasoning" -> ER(h, n, "Seasoning")
@@ -347,6 +357,20 @@ ApplyEffect(h, n, e) ==
                            Node("s", "str", h[n].v, <<>>),
                            Node("s", "str", e[2], <<>>)>>, m, "")
             ELSE ER(h, n, "")
+      [] e[1] = "need_attr" ->
+            \* a hook that fetches an attribute with Node.get_attribute, which
+            \* raises SeasoningError unless the key occurs exactly once
+            IF h[n].k = "m" /\ ~AttrUnique(h, n, e[2]) THEN ER(h, n, "Seasoning")
+            ELSE ER(h, n, "")
+      [] e[1] = "map_to_index" ->
+            \* Node.map_attribute_to_index(attr, key_attribute): every inner
+            \* mapping gets `key_attribute: <copy of its key node>` appended
+            IF h[n].k # "m" \/ KeyPos(h, n, e[2]) = {} THEN ER(h, n, "")
+            ELSE IF ~AttrUnique(h, n, e[2]) THEN ER(h, n, "Seasoning")
+            ELSE LET av == AttrVal(h, n, e[2]) IN
+                 IF h[av].k # "m" \/ \E i \in DOMAIN h[av].c : i % 2 = 0 /\ h[h[av].c[i]].k # "m"
+                 THEN ER(h, n, "")
+                 ELSE ER(IndexFold(h, h[av].c, 1, e[3]), n, "")
       [] OTHER -> ER(h, n, "")
 
 \* Loader.__savorize order: registered direct bases first (recursively),
@@ -517,6 +541,9 @@ SplitKw(cname, m, i, main, extra) ==
          THEN SplitKw(cname, m, i + 2, main \o <<m[i][2], m[i + 1]>>, extra)
          ELSE SplitKw(cname, m, i + 2, main, extra \o <<m[i], m[i + 1]>>)
 
+\* does the keyword list hold that value for that name?
+KwHas(kw, name, v) == \E i \in DOMAIN kw : i % 2 = 1 /\ kw[i] = name /\ kw[i + 1] = v
+
 ConClass(n, cname, s, prog) ==
     LET c == Cls(cname)
         h == s.h IN
@@ -553,7 +580,8 @@ ConClass(n, cname, s, prog) ==
     ELSE LET kw == SplitKw(cname, m, 1, <<>>, <<>>)
              s2 == [r.s EXCEPT !.lg = Append(@, <<"init", cname, kw>>)] IN
          \* user __init__ raising anything is wrapped into RecognitionError
-         IF c.initraises THEN CBad(s2, "RecErr", {n}, {})
+         IF c.initraises \/ (c.raisesif # <<>> /\ KwHas(kw, c.raisesif[1], c.raisesif[2]))
+         THEN CBad(s2, "RecErr", {n}, {})
          ELSE CR(<<"obj", cname, kw>>, s2, TRUE)
 
 Con(n, s, prog, dummy) ==
